@@ -84,6 +84,34 @@ func (a *accSM) RecoverFromSnapshot(r io.Reader, _ []sm.SnapshotFile, _ <-chan s
 }
 func (a *accSM) Close() error { return nil }
 
+// concAccSM is the same machine as an IConcurrentStateMachine: PrepareSnapshot
+// captures the accumulator, SaveSnapshot writes the captured value (entries may
+// be applied in between).
+type concAccSM struct{ core *accSM }
+
+func (c *concAccSM) Update(ents []sm.Entry) ([]sm.Entry, error) {
+	for i := range ents {
+		r, err := c.core.Update(ents[i])
+		if err != nil {
+			return nil, err
+		}
+		ents[i].Result = r
+	}
+	return ents, nil
+}
+func (c *concAccSM) Lookup(q interface{}) (interface{}, error) { return c.core.Lookup(q) }
+func (c *concAccSM) PrepareSnapshot() (interface{}, error)     { return c.core.acc, nil }
+func (c *concAccSM) SaveSnapshot(ctx interface{}, w io.Writer, _ sm.ISnapshotFileCollection, _ <-chan struct{}) error {
+	b := make([]byte, 8)
+	binary.LittleEndian.PutUint64(b, ctx.(uint64))
+	_, err := w.Write(b)
+	return err
+}
+func (c *concAccSM) RecoverFromSnapshot(r io.Reader, f []sm.SnapshotFile, d <-chan struct{}) error {
+	return c.core.RecoverFromSnapshot(r, f, d)
+}
+func (c *concAccSM) Close() error { return nil }
+
 // ---- rsm.INode: records what handleEntry reports ----
 
 type applyRec struct {
@@ -176,23 +204,30 @@ type replica struct {
 	cap   uint64
 	index uint64
 	name  string
+	conc  bool       // user state machine is an IConcurrentStateMachine
+	rlog  []pb.Entry // every entry this replica has applied (its part of the raft log)
 }
 
-func mkStateMachine(cap uint64, fs hk.IFS, snap *snapshotter) (*hk.StateMachine, *accSM, *nodeProxy) {
+func mkStateMachine(conc bool, cap uint64, fs hk.IFS, snap *snapshotter) (*hk.StateMachine, *accSM, *nodeProxy) {
 	hk.SetLRUMaxSessionCount(cap)
 	cfg := config.Config{ShardID: 1, ReplicaID: 1}
 	usm := &accSM{}
 	node := &nodeProxy{applied: map[uint64][]applyRec{}, stop: make(chan struct{})}
-	msm := hk.NewRegularSM(cfg, usm, make(chan struct{}))
+	var msm hk.IManagedStateMachine
+	if conc {
+		msm = hk.NewConcurrentSM(cfg, &concAccSM{core: usm}, make(chan struct{}))
+	} else {
+		msm = hk.NewRegularSM(cfg, usm, make(chan struct{}))
+	}
 	return hk.NewStateMachine(msm, snap, cfg, node, fs), usm, node
 }
 
-func newReplica(cap uint64, fs hk.IFS, name string) *replica {
+func newReplica(conc bool, cap uint64, fs hk.IFS, name string) *replica {
 	dir := "/c05-" + name
 	must(fs.MkdirAll(dir, 0755))
 	snap := &snapshotter{fs: fs, dir: dir}
-	s, usm, node := mkStateMachine(cap, fs, snap)
-	r := &replica{sm: s, usm: usm, node: node, snap: snap, fs: fs, cap: cap, name: name}
+	s, usm, node := mkStateMachine(conc, cap, fs, snap)
+	r := &replica{sm: s, usm: usm, node: node, snap: snap, fs: fs, cap: cap, name: name, conc: conc}
 	// index 1: the config change that makes replica 1 a member (snapshots need a membership)
 	cc := pb.ConfigChange{Type: pb.AddNode, ReplicaID: 1, Address: "a1"}
 	r.feed([]pb.Entry{{Index: 1, Term: 1, Type: pb.ConfigChangeEntry, Cmd: pb.MustMarshal(&cc)}})
@@ -207,6 +242,7 @@ func (r *replica) feed(ents []pb.Entry) {
 	if _, err := r.sm.Handle(batch, apply); err != nil {
 		panic(err)
 	}
+	r.rlog = append(r.rlog, ents...)
 }
 
 type entryResult struct {
@@ -288,7 +324,7 @@ func (r *replica) snapshotRestart() (saved string, nr *replica, perr string) {
 		r.snap.last, r.snap.has = ss, true
 		cap, sessions := decodeSessions(r.snap.sessions)
 		saved = showSessions(cap, sessions)
-		s, usm, node := mkStateMachine(r.cap, r.fs, r.snap)
+		s, usm, node := mkStateMachine(r.conc, r.cap, r.fs, r.snap)
 		got, err := s.Recover(hk.Task{Initial: true})
 		if err != nil {
 			panic(err)
@@ -296,7 +332,7 @@ func (r *replica) snapshotRestart() (saved string, nr *replica, perr string) {
 		if got.Index != r.index {
 			panic(fmt.Sprintf("recovered snapshot index %d, want %d", got.Index, r.index))
 		}
-		nr = &replica{sm: s, usm: usm, node: node, snap: r.snap, fs: r.fs, cap: r.cap, index: r.index, name: r.name}
+		nr = &replica{sm: s, usm: usm, node: node, snap: r.snap, fs: r.fs, cap: r.cap, index: r.index, name: r.name, conc: r.conc, rlog: r.rlog}
 	})
 	return
 }
@@ -340,7 +376,7 @@ func decodeSessions(b []byte) (uint64, []sessionView) {
 // most-recently-used first (want) and the user state in the image.
 func (r *replica) installFrom(history []op, n int) (saved, want string, acc uint64, perr string) {
 	perr = vh.Catch(func() {
-		ld := newReplica(r.cap, r.fs, fmt.Sprintf("%s-ld%d", r.name, n))
+		ld := newReplica(r.conc, r.cap, r.fs, fmt.Sprintf("%s-ld%d", r.name, n))
 		for _, o := range history {
 			ld.apply(o)
 		}
@@ -373,6 +409,106 @@ func (r *replica) installFrom(history []op, n int) (saved, want string, acc uint
 			panic(fmt.Sprintf("recovered snapshot index %d, want %d", got.Index, ss.Index))
 		}
 		r.index = ss.Index
+	})
+	return
+}
+
+// ---- SAVE / RESTART: snapshots of a replica that keeps running ----
+
+type pendingSave struct {
+	k       int
+	left    int       // entries still to be applied before the save completes
+	meta    hk.SSMeta // concurrent two-step save in flight
+	twoStep bool
+	table   string // session table (most recently used first) at the snapshot index
+	acc     uint64 // user state at the snapshot index
+	line    string // observation, printed when the save completes
+	failed  string
+}
+
+func mruString(b []byte) (fileOrder, mru string) {
+	cap, sessions := decodeSessions(b)
+	fileOrder = showSessions(cap, sessions)
+	m := make([]sessionView, len(sessions))
+	for i := range sessions {
+		m[len(sessions)-1-i] = sessions[i]
+	}
+	return fileOrder, showSessions(cap, m)
+}
+
+// saveBegin starts a snapshot of the running replica. For a concurrent state
+// machine and window > 0 only the first step of concurrentSave runs now
+// (prepare, under s.mu); the caller applies `window` entries, then saveEnd.
+func (r *replica) saveBegin(k, window int) *pendingSave {
+	p := &pendingSave{k: k, left: window} // the observation is printed after `window` entries in every case
+	p.failed = vh.Catch(func() {
+		r.feed([]pb.Entry{{Index: r.index + 1, Term: 1, Type: pb.ApplicationEntry}})
+		r.index++
+		delete(r.node.applied, r.index)
+		c, d := r.dump()
+		p.table, p.acc = showSessions(c, d), r.usm.acc
+		if r.conc && window > 0 {
+			meta, err := hk.SaveStep1(r.sm, hk.SSRequest{})
+			if err != nil {
+				panic(err)
+			}
+			p.meta, p.twoStep, p.left = meta, true, window
+			return
+		}
+		ss, _, err := r.sm.Save(hk.SSRequest{})
+		if err != nil {
+			panic(err)
+		}
+		r.snap.last, r.snap.has = ss, true
+	})
+	return p
+}
+
+// saveEnd completes the snapshot; returns the image's session table in file
+// order and most-recently-used first.
+func (r *replica) saveEnd(p *pendingSave) (fileOrder, mru string, perr string) {
+	if p.failed != "" {
+		return "", "", p.failed
+	}
+	perr = vh.Catch(func() {
+		if p.twoStep {
+			ss, _, err := hk.SaveStep2(r.sm, p.meta)
+			if err != nil {
+				panic(err)
+			}
+			r.snap.last, r.snap.has = ss, true
+		}
+		fileOrder, mru = mruString(r.snap.sessions)
+	})
+	return
+}
+
+// restart: a fresh StateMachine + fresh user state machine recovers from the
+// most recent snapshot (if any) and replays the entries above its index.
+func (r *replica) restart() (nr *replica, restored string, perr string) {
+	perr = vh.Catch(func() {
+		s, usm, node := mkStateMachine(r.conc, r.cap, r.fs, r.snap)
+		nr = &replica{sm: s, usm: usm, node: node, snap: r.snap, fs: r.fs, cap: r.cap, name: r.name, conc: r.conc}
+		if r.snap.has {
+			got, err := s.Recover(hk.Task{Initial: true})
+			if err != nil {
+				panic(err)
+			}
+			nr.index = got.Index
+		}
+		c, d := nr.dump()
+		restored = fmt.Sprintf("%s sm=%d", showSessions(c, d), usm.acc)
+		for _, e := range r.rlog {
+			if e.Index > nr.index {
+				nr.feed([]pb.Entry{e})
+				nr.index = e.Index
+			}
+		}
+		nr.rlog = r.rlog
+		nr.node.applied = map[uint64][]applyRec{}
+		if nr.index != r.index {
+			panic(fmt.Sprintf("replayed up to index %d, the replica had applied %d", nr.index, r.index))
+		}
 	})
 	return
 }
